@@ -372,12 +372,16 @@ impl<'a> DataTelegram<'a> {
             crate::consts::SD2 => {
                 let l1 = buffer[1];
                 let l2 = buffer[2];
+                let sd2_repeated = buffer[3];
                 buffer = &buffer[3..];
                 if l1 != l2 {
                     log::debug!("Length info mismatch: {} != {}", l1, l2);
                     return Some(Err(()));
                 } else if l1 < 3 {
                     log::debug!("Length is too short: {}", l1);
+                    return Some(Err(()));
+                } else if sd2_repeated != crate::consts::SD2 {
+                    log::debug!("Repeated start delimiter is wrong: 0x{:02x}", sd2_repeated);
                     return Some(Err(()));
                 }
                 (l1 - 3, usize::from(l1) + 6)
